@@ -924,6 +924,54 @@ func checkGoroutineJoin(c *Ctx) {
 		for i, sp := range spawns {
 			n++
 			leak := false
+			// a goroutine started on a WaitGroup / errgroup that belongs to another function (handed down as a parameter, captured
+			// by a closure) is joined by the owner: the obligation moves to the owner's call that leads here
+			if call, isCall := sp.(*ssa.Call); isCall && len(call.Common().Args) > 0 {
+				if al, isAl := c.P.DefX(call.Common().Args[0]).(*ssa.Alloc); isAl && al.Parent() != nil && al.Parent() != f {
+					owner := al.Parent()
+					ownerWaits := map[*ssa.BasicBlock]bool{}
+					for _, b := range owner.Blocks {
+						for _, in := range b.Instrs {
+							if isWaitCall(in) {
+								ownerWaits[b] = true
+							}
+						}
+					}
+					var leads []ssa.Instruction
+					for _, b := range owner.Blocks {
+						for _, in := range b.Instrs {
+							oc, ok := in.(*ssa.Call)
+							if !ok || oc.Common().StaticCallee() == nil || !core.InModule(oc.Common().StaticCallee()) {
+								continue
+							}
+							for _, g := range ModReach(c.P, oc.Common().StaticCallee()) {
+								if g == f {
+									leads = append(leads, in)
+									break
+								}
+							}
+						}
+					}
+					okOwner := len(leads) > 0
+					for _, ld := range leads {
+						for _, b := range owner.Blocks {
+							if _, isRet := b.Instrs[len(b.Instrs)-1].(*ssa.Return); !isRet || b.Comment == "recover" {
+								continue
+							}
+							if b == ld.Block() && !ownerWaits[b] {
+								okOwner = false
+							}
+							for _, sx := range ld.Block().Succs {
+								if reachAvoiding(sx, b, ownerWaits, nil) {
+									okOwner = false
+								}
+							}
+						}
+					}
+					R.Check(okOwner, "R10.4", fmt.Sprintf("%s#spawn[%d]", fn, i), sp.Pos(), fn, "the goroutine is started on a group owned by "+core.FuncName(owner)+", which waits on every path from the call that leads here to a return", "the goroutine is started on a group owned by "+core.FuncName(owner)+", which can return after the call that leads here without a Wait(): the goroutine can outlive the call")
+					continue
+				}
+			}
 			for _, b := range f.Blocks {
 				if _, isRet := b.Instrs[len(b.Instrs)-1].(*ssa.Return); !isRet || b.Comment == "recover" {
 					continue
